@@ -214,3 +214,39 @@ def thorough_for(prop: str, seed: int = 0):
         'selftest_samples': [f"{r['vid']} ({r['kind']}): {r['detail'][:160]}" for r in res[:12]],
     }
     return summary, failed
+
+
+def seeds_for(prop: str, src_root=None):
+    """Thorough tier: every kept seeded change of this property (seeded/<prop>-*/patch.diff, written by independent
+    sub-agents) is applied to a scratch copy of the current tree and must be reported by this property's check.
+    Returns (summary dict, failures).  A patch that does not apply to the current tree is skipped and listed."""
+    import glob
+    import subprocess
+
+    src_root = Path(src_root or os.environ.get('MPSA_REPO') or '/repo')
+    kk = known_keys()
+    reported, skipped, failed = [], [], []
+    for d in sorted(glob.glob(str(HERE / 'seeded' / f'{prop}-*'))):
+        patch = Path(d) / 'patch.diff'
+        if not patch.exists():
+            continue
+        scratch = Path(tempfile.mkdtemp(prefix='mpsa-seed-'))
+        try:
+            (scratch / 'src').mkdir()
+            shutil.copytree(src_root / PKG_REL, scratch / PKG_REL)
+            subprocess.run(['git', 'init', '-q', '.'], cwd=scratch, capture_output=True)
+            r = subprocess.run(['git', 'apply', '--unsafe-paths', '-p1', str(patch)], cwd=scratch, capture_output=True)
+            if r.returncode != 0:
+                skipped.append(f'{Path(d).name}: patch does not apply to this tree')
+                continue
+            res = run_props(scratch, (prop,))
+            bad, err = res[prop]
+            new = [o for o in bad if (prop, o.rule, f'{o.func}|{o.construct}') not in kk]
+            if new:
+                reported.append(f'{Path(d).name}: {sorted({o.rule for o in new})}')
+            else:
+                failed.append({'vid': Path(d).name, 'detail': f'seeded change not reported ({err or "no failed obligation"})'})
+        finally:
+            shutil.rmtree(scratch, ignore_errors=True)
+    os.environ.pop('MPSA_REPO', None) if not os.environ.get('MPSA_REPO_KEEP') else None
+    return {'seeded_changes_reported': reported, 'seeded_changes_skipped': skipped, 'seeded_changes_missed': [f['vid'] for f in failed]}, failed
